@@ -7,15 +7,15 @@
 //! `s: Utf8 NULL`, and 0..3 random columns from the vmon `ColTy` pool.
 
 use arrow_array::{Array, ArrayRef, Int32Array, Int64Array, RecordBatch, RecordBatchIterator, StringArray};
-use arrow_schema::{DataType, Field, Schema, SchemaRef};
+use arrow_schema::{Schema, SchemaRef};
 use futures::TryStreamExt;
 use lance::dataset::optimize::{
     commit_compaction, compact_files, plan_compaction, CompactionOptions, RewriteResult,
 };
 use lance::dataset::{
-    MergeInsertBuilder, UpdateBuilder, WhenMatched, WhenNotMatched, WriteMode, WriteParams,
+    MergeInsertBuilder, UpdateBuilder, WhenMatched, WhenNotMatched, WriteMode,
 };
-use lance::index::DatasetIndexRemapperOptions;
+use lance::dataset::index::DatasetIndexRemapperOptions;
 use lance::Dataset;
 use lance_encoding::version::LanceFileVersion;
 use lance_index::scalar::{BuiltinIndexType, ScalarIndexParams};
@@ -474,12 +474,18 @@ pub struct HistCfg {
     pub initial_rows: usize,
     pub initial_rows_per_file: usize,
     pub v2_manifest_paths: bool,
+    /// may compactions defer the index remap? With stable row ids a deferred remap leaves a
+    /// fragment reuse index that makes every later `load_indices` panic (C13 finding); only C13
+    /// keeps generating that combination.
+    pub allow_defer_remap: bool,
 }
 
 impl HistCfg {
     pub fn random(rng: &mut Rng, stable: Option<bool>) -> Self {
+        let stable = stable.unwrap_or_else(|| rng.bool());
         Self {
-            stable: stable.unwrap_or_else(|| rng.bool()),
+            stable,
+            allow_defer_remap: true,
             version: *rng.pick_weighted(&[
                 (3, LanceFileVersion::V2_0),
                 (3, LanceFileVersion::V2_1),
@@ -514,12 +520,8 @@ pub struct Hist {
 /// list never starts with... no guarantee) -- see `safe_pool`.
 fn extra_pool(version: LanceFileVersion) -> Vec<ColTy> {
     let mut pool = ColTy::scalar_pool();
-    pool.extend([ColTy::Dec128(12, 3), ColTy::FslF32(4), ColTy::StructIS, ColTy::DictUtf8]);
-    // C11 finding: in 2.1 / 2.2 a list whose first item is NULL is not readable; keep that
-    // defect out of the histories of the other properties (it is C11's to report).
-    if version == LanceFileVersion::V2_0 {
-        pool.push(ColTy::ListI32);
-    }
+    pool.extend([ColTy::Dec128(12, 3), ColTy::FslF32(4), ColTy::StructIS, ColTy::DictUtf8, ColTy::ListI32]);
+    let _ = version;
     pool
 }
 
@@ -532,10 +534,14 @@ pub fn make_spec(rng: &mut Rng, cfg: &HistCfg) -> TableSpec {
     let pool = extra_pool(cfg.version);
     for i in 0..cfg.extra_cols {
         let ty = rng.pick(&pool).clone();
+        // struct-level NULLs are kept out of the history tables: 2.0 does not store them
+        // (documented) and in 2.1 an update turns a NULL struct into a struct of NULLs
+        // (reported in NOTES.md; C12's subject)
+        let nullable = if ty == ColTy::StructIS { false } else { rng.bool() };
         spec.cols.push(ColSpec {
             name: format!("x{i}"),
             ty,
-            nullable: rng.bool(),
+            nullable,
             null_eighths: *rng.pick(&[0u8, 1, 4, 8]),
             small_domain: rng.bool(),
         });
@@ -699,7 +705,7 @@ impl Hist {
             materialize_deletions: rng.chance(3, 4),
             threshold: *rng.pick(&[0.0f32, 0.1, 0.5, 0.99, 1.5]),
             batch_size: *rng.pick(&[None, Some(1usize), Some(3), Some(64)]),
-            defer_index_remap: rng.chance(1, 3),
+            defer_index_remap: rng.chance(1, 3) && self.cfg.allow_defer_remap,
             num_threads: *rng.pick(&[None, Some(1usize), Some(4)]),
             distributed: if allow_distributed && rng.chance(1, 3) {
                 Some(rng.next_u64())
